@@ -9,7 +9,7 @@ FINISH = dict(level="model_checking",
                    "nothing shared with the patch, nothing reachable twice; V: generated operation sequences tracking "
                    "the evolving document (escaped names, array ends, '-', overlapping from/path) and malformed / "
                    "arbitrary patch values, copy and in-place mode; each application validated by TLC with Patch!Apply")
-ASF = ["string_prefix", "self_move_noop", "move_len_plus_one", "remove_escaped_key"]
+ASF = ["string_prefix", "self_move_noop", "move_len_plus_one", "remove_escaped_key", "test_kind_strict"]
 
 
 def diag_of(rec, ex):
@@ -22,7 +22,7 @@ def diag_of(rec, ex):
 def run(ck):
     thorough = ck.tier == "thorough"
     ck.assumptions += ["operations on the whole document (path or from \"\") are run for safety but their outcome is not judged",
-                       "documents and patches contain no non-integer numbers (test of int vs double is left open)",
+                       "test compares numbers by numeric value (RFC 6902 4.6); documents hold integers and the doubles k.0 / k.5 for small k",
                        "the contents of *base after a failed in-place application are not judged",
                        "crashes / leaks / invalid accesses on malformed patches are observed by ASan/UBSan/LSan"]
     ck.mc("MCPatch", "C13_mc.cfg", workers=8, timeout=1200)
